@@ -61,6 +61,12 @@ def acLine (d : ACDrv) (lineNo : Nat) (ts : List String) : ACDrv × List String 
       let g : Option Nat := if gi < 0 then none else some gi.toNat
       let (reacts, mem') := botReacts (getMem d.botMem id) atTable isIn (st == "playing") v g
       let d := { d with botMem := setMem d.botMem id mem', cnt := d.cnt.bump "bot.updates" }
+      let d := if v.isNone && st == "playing" then { d with cnt := d.cnt.bump "bot.playing-table-without-a-hand-state" } else d
+      if mv.startsWith "panic" then
+        -- the runner died on this view (D34: a table that says playing and carries no hand state yet)
+        let (d, o) := viol d [if reacts then "C18.bot-crashed-instead-of-acting" else "C18.bot-crashed-on-a-view-it-is-not-asked-in"]
+        ({ d with mismatches := d.mismatches + 1 }, mism d s!"bot model-reacts={reacts} impl=panic" ++ o)
+      else
       if mv == "none" then
         if reacts then
           let (d, o) := viol d ["C18.bot-silent-although-asked"]
@@ -162,6 +168,15 @@ def acLine (d : ACDrv) (lineNo : Nat) (ts : List String) : ACDrv × List String 
       if call == expect.1 then (d, o)
       else ({ d with mismatches := d.mismatches + 1 }, mism d s!"player-runner status={status} at={atime} model={expect.1} impl={call}" ++ o)
     | _, _, _, _, _, _, _, _ => (d, [s!"BADLINE {lineNo} ac-player"])
+  | "player-nostate" :: _ =>
+    -- a table that says playing, lists the player among the hand's players and carries no hand state yet (D34): nothing to
+    -- act on — `requestMove` is called only with a hand state in which the player has allowed actions
+    let d := { d with cnt := d.cnt.bump "player.playing-table-without-a-hand-state" }
+    match kv post "call" with
+    | some "none" => (d, [])
+    | some "panic" => viol d ["C19.runner-crashed-on-a-playing-table-without-a-hand-state"]
+    | some _ => viol d ["C19.auto-play-acted-without-a-hand-state"]
+    | none => (d, [s!"BADLINE {lineNo} ac-player-nostate"])
   | "observe" :: rest =>
     match (kv rest "sys").bind boolOf, parsePriv rest with
     | some sys, some inP =>
